@@ -233,6 +233,61 @@ def exp_log(j, rng, n):
                 j.ok(cid)
 
 
+def exp_log_lattice(j, thorough):
+    """structured exp/log cases enumerated by TLC (QuatExpLog.tla): every integer quaternion of the -2..2 box with a
+    non-zero vector part (pure ones included) at several scales; vector parts of norm exactly k pi/4"""
+    from spatialmath import Quaternion
+    r = run_tlc("MC_QuatExpLog", "QuatExpLog", timeout=300)
+    seen = set()
+    for c in r.json:
+        key = json.dumps(c, sort_keys=True)
+        if key in seen:
+            continue
+        seen.add(key)
+        if c["k"] == "explog":
+            for sigma in ((1e-6, 1e-3, 1.0, 7.0, 1e3, 1e6) if thorough else (1e-3, 1.0, 1e3)):
+                qv = np.array(c["q"], dtype=float) * sigma
+                feat = "%s;axes=%d;sigma=%g" % (c["cls"], c["axes"], sigma)
+                cid = ("exp(log(q)) lattice", c["cls"], c["axes"], sigma)
+                try:
+                    got = np.asarray(Quaternion(qv).log().exp().vec, dtype=float)
+                    d = float(np.max(np.abs(got - qv))) / max(1.0, float(np.max(np.abs(qv))))
+                except Exception as ex:  # noqa: BLE001
+                    j.fail("%s|Quaternion.log/exp|exp(log(q));%s|raised-%s" % (PID, feat, type(ex).__name__), {"q": qv.tolist()}, cid)
+                    continue
+                if d > 1e-6:
+                    j.fail("%s|Quaternion.log/exp|exp(log(q));%s|law-violated" % (PID, feat), {"q": qv.tolist(), "got": got.tolist(), "distance": d}, cid)
+                else:
+                    j.ok(cid)
+        elif c["k"] == "logexp":
+            u = np.array(c["u"], dtype=float)
+            u = u / np.linalg.norm(u)
+            k = c["n"]
+            qv = np.r_[float(c["s"]), k * math.pi / 4 * u]
+            den = math.sqrt(2.0) if c["odd"] else 1.0
+            expected = math.exp(c["s"]) * np.r_[c["cs"][0] / den, c["cs"][1] / den * u]
+            feat = "s=%s;k=%d" % ("0" if c["s"] == 0 else "neg" if c["s"] < 0 else "pos", k)
+            cid = ("log(exp(q)) lattice", feat)
+            try:
+                e = Quaternion(qv).exp()
+                ev = np.asarray(e.vec, dtype=float)
+                back = np.asarray(e.log().vec, dtype=float)
+            except Exception as ex:  # noqa: BLE001
+                j.fail("%s|Quaternion.exp/log|log(exp(q));%s|raised-%s" % (PID, feat, type(ex).__name__), {"q": qv.tolist()}, cid)
+                continue
+            d1 = float(np.max(np.abs(ev - expected))) / max(1.0, math.exp(c["s"]))
+            d2 = float(np.max(np.abs(back - qv)))
+            if d1 > 1e-6:
+                j.fail("%s|Quaternion.exp|%s|wrong-value" % (PID, feat), {"q": qv.tolist(), "got": ev.tolist(), "expected": expected.tolist()}, cid)
+            elif d2 > 1e-6:
+                j.fail("%s|Quaternion.exp/log|log(exp(q));%s|law-violated" % (PID, feat), {"q": qv.tolist(), "got": back.tolist()}, cid)
+            else:
+                j.ok(cid)
+    if len(seen) < 700:
+        raise common.MachineryError("QuatExpLog export too small: %d" % len(seen))
+    return r
+
+
 def dual_norm(j, rng, thorough):
     """the dual norm of every unit dual quaternion built from a rigid motion is (1, 0) to 1e-6"""
     from spatialmath import SE3
@@ -273,8 +328,9 @@ def run(tier):
     j.sample({"event": next(e for e in events if e["fn"] == "dqmul")})
     n_ev = len(events)
     exp_log(j, rng, 300 if thorough else 70)
+    rx = exp_log_lattice(j, thorough)
     rl = dual_norm(j, rng, thorough)
-    cov = {"states": rj.distinct + rl.distinct + 1, "transitions": rj.generated + rl.generated,
+    cov = {"states": rj.distinct + rl.distinct + rx.distinct + 1, "transitions": rj.generated + rl.generated + rx.generated,
            "traces_validated_against_impl": n_ev, "theorems_checked_by_tlc": 14,
            "events_judged_by_tlc": n_ev, "events_rejected": len(rejected),
            "lattice_exact": n_ev, "valuation": j.evaluations - n_ev, "checker_cmd": rt.cmd,
